@@ -1377,7 +1377,7 @@ def fmt_mono(m):
 def _s_fmt(v, limit=12):
     C = CTX
     terms = []
-    for i, (m, c) in enumerate(sorted(v.n.items(), key=lambda t: str(t[0]))):
+    for i, (m, c) in enumerate(sorted(v.n.items(), key=lambda t: t[0])):
         if i >= limit:
             terms.append("... (%d terms)" % len(v.n))
             break
